@@ -309,6 +309,11 @@ func mapRangeIsOrderFree(fn *ssa.Function, rg *ssa.Range) (bool, string) {
 			if callee == nil || callee.Pkg == nil || callee.Pkg.Pkg.Path() != "sort" {
 				continue
 			}
+			// only the library's own total orders count: a caller-supplied comparison (sort.Slice,
+			// sort.SliceStable, sort.Sort) may tie on distinct keys and then leaves them in map order
+			if callee.Name() != "Strings" && callee.Name() != "Ints" && callee.Name() != "Float64s" {
+				continue
+			}
 			if len(c.Call.Args) > 0 {
 				if ld, ok := c.Call.Args[0].(*ssa.UnOp); ok && ld.X == collected {
 					sorted = true
